@@ -80,6 +80,10 @@ where
             }
         }
         self.q_vals.push_back(val);
+        // only the most recent output is read again; keep at most `window_len` of them.
+        if self.q_out.len() >= self.window_len {
+            self.q_out.pop_front();
+        }
         if val > self.high {
             self.high = val;
         } else if val < self.low {
